@@ -120,7 +120,7 @@ PROPS["C06"] = dict(
     module="Cfdp.Props.C06u",
     namespace="Cfdp.Codec",
     theorems=["C06_total", "C06_alloc", "C06_userop_total", "C06_report_total"],
-    engines=["codec"],
+    engines=["codec", "udp"],
     design="§6 C06",
     technique="Lean 4 totality proof over the codec model (panic outcome unreachable) + differential correspondence on a malformed byte stream with allocation counting",
     level_text=("Kernel-checked: for every byte string the model decoder returns a PDU or an error and never its panic outcome (C06_total; the panic "
@@ -132,7 +132,7 @@ PROPS["C06"] = dict(
     level_note=("Trusted: Lean kernel; differential tie; the harness is built with overflow-checks=on so that arithmetic overflow shows as a panic. "
                 "Canonical acceptance (re-encode with recomputed length, decode again, same PDU) is checked by the implementation-level oracle on every "
                 "accepted string but is not yet a theorem."),
-    rule=("codec engine malformed stream (see level_text). Non-trivial = accepted by the implementation or rejected with a variant other than ReadError."),
+    rule=("udp engine as in C16 (cfdp-daemon/src/transport.rs is where received bytes are handed to PDU::decode: what UdpTransport::receive returns is compared with the Lean model of receive = decode of the datagram's own bytes). codec engine malformed stream (see level_text). Non-trivial = accepted by the implementation or rejected with a variant other than ReadError."),
     assumptions=[],
     unproved=["C06_canon: decode bs = ok p -> decode (encode (relen p)) = ok (relen p) for every byte string is an oracle of the codec engine (canonical, userop_canonical), not a theorem: values the decoders accept need not be well-formed in C05's sense (e.g. a fault location beside NoError), so C05_pdu does not apply to them"],
 )
